@@ -18,7 +18,7 @@ ASSUMPTIONS = [
     "the process is Unitary(V) with V a 2x2 unitary with three symbolic angles (every single-qubit unitary up to a global phase, which the Choi matrix does not see); thorough adds V1 (x) V2 on two qubits; the experiment callback returns exact outcome probabilities computed from the received circuit and input state by the reference Fock amplitude",
     "np.linalg.pinv / np.linalg.solve act on constant Gaussian-rational matrices only: computed numerically, rationalised and certified exactly (four Penrose identities / A x = b in integer arithmetic) before use",
 ]
-BOUNDS = {"quick": "one qubit: LI, gate fidelity (second symbolic unitary as target, and target = V), MLE forward model and TP projection", "thorough": "adds two qubits: V1 (x) V2 for LI and gate fidelity, and CZ.(V1 (x) 1) through the library's post-selected CZ for LI"}
+BOUNDS = {"quick": "one qubit: LI, gate fidelity (second symbolic unitary as target, and target = V; three successive process() calls on one object), MLE forward model and TP projection", "thorough": "adds two qubits: V1 (x) V2 for LI and gate fidelity, and CZ.(V1 (x) 1) through the library's post-selected CZ for LI"}
 OUTSIDE = ("NOT ENCODABLE: the MLE projected-gradient descent (np.linalg.eigh in _cp_proj, data-dependent stopping) - therefore 'MLE returns a positive, trace-preserving Choi matrix with fidelity >= 0.99'; "
            "fidelity() of both classes (scipy.linalg.sqrtm). Only the MLE forward model and its TP projection are decided.")
 STUBS = ["experiment callback -> exact outcome probabilities from the received circuits", "np.linalg.pinv/solve -> certified exact results on constant matrices"]
@@ -129,6 +129,13 @@ def h_gate_fidelity(ctx, n, same):
     if same:
         ctx.check_eq(f, 1, "gate-fidelity:one-when-target-equals-process")
     ctx.check_eq(gf.fidelity, f, "gate-fidelity:attribute")
+    # the same object asked again - for the same target and then for the process itself - answers
+    # each question on its own (nothing of an earlier call may enter a later one)
+    f2 = gf.process(T)
+    ctx.check_eq(f2 * (d * (d + 1)), want_num, "gate-fidelity:second-call:average-gate-fidelity-formula")
+    f3 = gf.process(V)
+    ctx.check_eq(f3, 1, "gate-fidelity:later-call:one-when-target-equals-process")
+    ctx.check_eq(gf.fidelity, f3, "gate-fidelity:attribute-follows-the-last-call")
 
 
 def h_mle_forward(ctx):
